@@ -282,12 +282,17 @@ func runC20(c *Ctx) {
 				}
 			}
 			if bad == "" {
+				hitDiff := u.bdd.Xor(gotHit, u.bdd.And(body0, wantHit))
+				hitOK := hitDiff == False
+				if !hitOK {
+					// equal up to arithmetic and "EqualFold(X[i:..], \"<...\") implies X[i] == '<'" (a pre-test on the first byte)
+					hitOK, _ = theoryEmpty(u, hitDiff, u.FoldAxioms(hitDiff))
+				}
 				switch {
 				case other != "":
 					bad = "the finder returns " + other + ", documented: the first offset with a match, or -1"
-				case gotHit != u.bdd.And(body0, wantHit):
-					diff := u.bdd.Xor(gotHit, u.bdd.And(body0, wantHit))
-					bad = "the finder does not return an offset exactly when one of </head, <link, <style, <script matches there (case-insensitively, within the whole body): differs when " + clip(u.ShowBool(diff), 240)
+				case !hitOK:
+					bad = "the finder does not return an offset exactly when one of </head, <link, <style, <script matches there (case-insensitively, within the whole body): differs when " + clip(u.ShowBool(hitDiff), 240)
 				case !u.bdd.Implies(gotMiss, u.bdd.Not(ct.Cont)) || gotMiss == False:
 					bad = "the finder does not return -1 exactly after the window is exhausted"
 				}
